@@ -130,6 +130,21 @@ theorem map_by_header {std : Std} {r : Rng Data} {st : DeState} (hw : WF r)
       have hm := List.mem_zipIdx hp
       rw [cellPos_eq _ _ (by simp only; omega)]
 
+/-- Fields are bound by header name independently of column order: permuting the columns of the header
+    row and of a data row in the same way (`perm` a permutation of the column indices) permutes the
+    (header, cell) pairs handed to a map/struct visitor and changes nothing else — every non-empty cell
+    still arrives under the header of its own column. -/
+theorem map_column_order_independent (hs : List Str) (row : List Data) (hl : hs.length = row.length)
+    (perm : List Nat) (hp : perm.Perm (List.range row.length)) (pos pos' : Pos) :
+    ((mapEvents (perm.map fun i => hs.getD i []) (List.range (perm.map fun i => row.getD i .empty).length)
+        (perm.map fun i => row.getD i .empty) pos').filterMap evKV).Perm
+      ((mapEvents hs (List.range row.length) row pos).filterMap evKV) := by
+  rw [mapEvents_kv _ _ _ (by simp), mapEvents_kv _ _ _ hl]
+  unfold kvPairs
+  apply List.Perm.filter
+  rw [List.zip_map', zip_eq_range_map hs row hl]
+  exact hp.map _
+
 /-! ## selecting headers -/
 
 /-- `Headers::Custom(names)`: the selected column of the `k`-th requested name is the FIRST column whose
